@@ -266,7 +266,7 @@ def finish(ctx, relevant, level="model_checking", extra_cov=None, rule=None):
         import collections
         log("mismatch summary:", dict(collections.Counter((m["what"], m.get("source")) for m in ctx.mismatches)))
         log("violations:", len(viol), "foreign:", len(foreign), "known:", {k: len(v) for k, v in knownhits.items()})
-    rdir = os.path.join(VERIF, "replays", ctx.prop)
+    rdir = os.path.join(os.environ.get("VERIF_REPLAY_DIR") or os.path.join(VERIF, "replays"), ctx.prop)
     lines = []
     seen = set()
     for m in viol:
@@ -303,8 +303,9 @@ def finish(ctx, relevant, level="model_checking", extra_cov=None, rule=None):
     cov.update(extra_cov or {})
     ev = {"property_id": ctx.prop, "tier": ctx.tier, "seed": ctx.seed, "level": level, "coverage": cov,
           "assumptions": ctx.assumptions, "wall_s": round(time.time() - ctx.t0, 1), "violations": len(seen)}
-    os.makedirs(os.path.join(VERIF, "evidence"), exist_ok=True)
-    with open(os.path.join(VERIF, "evidence", ctx.prop + ".json"), "w") as f:
+    evdir = os.environ.get("VERIF_EVIDENCE_DIR") or os.path.join(VERIF, "evidence")   # (overridden only when trying seeded defects)
+    os.makedirs(evdir, exist_ok=True)
+    with open(os.path.join(evdir, ctx.prop + ".json"), "w") as f:
         json.dump(ev, f, indent=1)
     return 1 if lines else 0
 
